@@ -26,7 +26,8 @@ def root_cause(mech):
     if f[0] == "capture" and len(f) == 4:
         t, exp, got = f[1], f[2], f[3]
         kinds = set(got.replace("q", ""))
-        if "M" in kinds or "L" in kinds or exp == "L":
+        # a member can only be reached by a qualified path (`X::y` where a closer struct X has a member y)
+        if ("M" in kinds and "q" not in got) or "L" in kinds or exp == "L":
             return None
         if t == "m" and kinds == {"G"} and exp == "G" and "q" not in got:
             return "msl-threaded-globals-share-leaf-name"
@@ -34,6 +35,89 @@ def root_cause(mech):
         # is printed resolves differently at the use site
         return "relative-path-resolves-elsewhere"
     return None
+
+
+def res_key(mech):
+    """resource / pipeline stream (`C15.res`): (site, summarised mechanical key).  Letters: entity kinds N S M E V G F L,
+    C cbuffer, D cbuffer member, t the `<cbuffer>Type` struct Metal generates, # a declaration the exporter generates itself.
+    A site is attributed only on positive evidence in the key (kinds involved, wrapper context, target); the summarised
+    keys of a site form a small closed set (RES_KNOWN_KEYS) so that another seed cannot produce an unlisted variant."""
+    f = mech.split(":")
+    head = f[0]
+    t = f[1] if len(f) > 1 else ""
+    hlsl = t in ("dx", "vk", "vkba")
+    if head == "reserved-unrenamed" and len(f) == 3:
+        if f[2] == "M":
+            return "struct-member-not-in-namemap", mech
+        if f[2] in "CD" and hlsl:
+            return "hlsl-cbuffer-not-in-namemap", mech
+        return None, mech
+    if head == "verbatim" and len(f) == 5:
+        if f[2] == "method-clash" and f[3] == "global":
+            return "methods-named-in-namespace-scope", "verbatim:%s:method-clash" % t
+        if f[2] == "cbuffer-type-clash" and t == "msl":
+            return "msl-cbuffer-struct-takes-user-name", "verbatim:msl:cbuffer-type-clash"
+        if f[2] == "generated-clash" and f[3] == "local":
+            return "local-renamed-next-to-generated-name", "verbatim:%s:generated-clash:local:L" % t
+        return None, mech
+    if head == "dup" and len(f) == 3:
+        ks = set(f[2])
+        if "#" in ks:
+            return "generated-names-not-reserved", "dup:%s:generated" % t
+        if ks & set("CD") and hlsl:
+            return "hlsl-cbuffer-not-in-namemap", "dup:%s:cbuffer" % t
+        if ks == {"F", "M"}:
+            # a method renamed by the map (in the root scope) takes the name of a member of its struct
+            return "struct-member-not-in-namemap", "dup:%s:member-method" % t
+        if t == "msl" and ks == {"g"}:
+            return "msl-threaded-globals-share-leaf-name", "dup:msl:GG"
+        if t == "vkba" and ks == {"g"}:
+            return "vkba-inline-descriptor-members-share-leaf-name", "dup:vkba:GG"
+        return None, mech
+    if head == "dangling" and len(f) == 3:
+        if f[2] == "D" and hlsl:
+            return "hlsl-cbuffer-member-printed-by-leaf-name", mech
+        if f[2].endswith("~rel") and "@wrapper" not in f[2] and not set(f[2][:-4]) & set("MLg#CD"):
+            return "relative-path-resolves-elsewhere", "capture:%s:relative:by-nothing" % t
+        return None, mech
+    if head == "capture-builtin" and len(f) == 3:
+        if set(f[2]) & set("CD") and hlsl:
+            return "hlsl-cbuffer-not-in-namemap", "capture:%s:cbuffer" % t
+        if set(f[2]) == {"M"}:
+            # inside the struct (method signatures and bodies) a member named like a built-in type hides it
+            return "struct-member-not-in-namemap", "capture:%s:member" % t
+        return None, mech
+    if head == "capture" and len(f) == 4:
+        meant, got = f[2], f[3]
+        relative = got.endswith("~rel")
+        got = got.replace("~rel", "")
+        wrapper = got.endswith("@wrapper")
+        got = got.replace("@wrapper", "")
+        qualified = got.startswith("q")
+        got = got.lstrip("q")
+        ks = set(meant) | set(got)
+        w = "@wrapper" if wrapper else ""
+        if "#" in ks:
+            return "generated-names-not-reserved", "capture:%s:generated%s" % (t, w)
+        if ks & set("CD") and hlsl:
+            return "hlsl-cbuffer-not-in-namemap", "capture:%s:cbuffer" % t
+        if meant == "M" and set(got) == {"F", "M"}:
+            return "struct-member-not-in-namemap", "capture:%s:member-method" % t
+        if meant in ("S", "E", "t") and got == "L" and not wrapper:
+            return "local-captures-type-name", "capture:%s:type:by-local" % t
+        if t == "msl" and wrapper and meant == "F" and got == "L":
+            return "msl-entry-wrapper-parameter-captures-entry", "capture:msl:F:by-local@wrapper"
+        if "L" in ks or ("M" in ks and not (qualified and relative)):
+            return None, mech
+        if t == "msl" and not qualified and got and set(got) <= {"g", "G"} and "g" in got:
+            # the parameter / wrapper local of a threaded global is found instead of (or next to) what was meant
+            return "msl-threaded-globals-share-leaf-name", "capture:msl:by-threaded-global%s" % w
+        if t == "vkba" and set(got) == {"g"} and set(meant) == {"g"}:
+            return "vkba-inline-descriptor-members-share-leaf-name", "capture:vkba:inline-member"
+        if wrapper or not relative or "g" in ks:
+            return None, mech
+        return "relative-path-resolves-elsewhere", "capture:%s:relative:by-namespace-level-entity" % t
+    return None, mech
 
 
 def finding_key(req, obs, detail):
@@ -47,6 +131,9 @@ def finding_key(req, obs, detail):
     if m:
         return "panic %s: %s" % (m.group(1), re.sub(r"\d+", "N", m.group(2)))
     mech = d.split(" | ")[0]
+    if req.startswith("C15.res"):
+        site, key = res_key(mech)
+        return key if site is None else "res:" + site + "/" + key
     root = root_cause(mech)
     if root is None:
         return mech
@@ -61,9 +148,26 @@ def finding_key(req, obs, detail):
     return root + "/" + mech
 
 
+def shrink_res(f):
+    """resource / pipeline stream: drop one `use` / `lv` statement, one empty block, or one definition that nothing refers to by
+    ordinal (dropping a definition would renumber the ordinals behind it, so only trailing-safe drops are tried: statements)"""
+    toks = f[2].split(" ")
+    for i, t in enumerate(toks):
+        if t in ("use", "lv") and i + 1 < len(toks):
+            # a local that is used later is kept (L ordinals would shift)
+            if t == "lv":
+                continue
+            yield "\t".join(f[:2] + [" ".join(toks[:i] + toks[i + 2:])])
+        if t == "{" and i + 1 < len(toks) and toks[i + 1] == "}" and i > 0 and toks[i - 1] in ("{", "}") :
+            yield "\t".join(f[:2] + [" ".join(toks[:i] + toks[i + 2:])])
+
+
 def shrink(req):
     f = req.split("\t")
     if len(f) != 3:
+        return
+    if f[0] == "C15.res":
+        yield from shrink_res(f)
         return
     toks = f[2].split(" ")
     # drop one balanced item / statement at a time
@@ -98,6 +202,39 @@ def shrink(req):
         i += 1
 
 
+WITNESSES = [
+    ('pMember', 'msl', 'st zqs kernel end'),
+    ('pCbuffer', 'dx', 'cb abs - int end ef c zqe zqp { use D0.0 } pl zqP F0 -'),
+    ('pCbufferNs', 'dx', 'ns zqn cb zqc - zqm end end ef c zqe zqp { use D0.0 } pl zqP F0 -'),
+    ('pGenerated', 'vkba', 'rs ba - g_inlineDescriptor0 ef c zqe zqp { use G0 } pl zqP F0 -'),
+    ('pLocalType', 'dx', 'st S zqm end ef c zqe S { use S0 } pl zqP F0 -'),
+    ('pLocalType', 'msl', 'st S zqm end ef c zqe S { use S0 } pl zqP F0 -'),
+    ('pWrapper', 'msl', 'ef c S S { } pl zqP F0 -'),
+    ('pThreaded', 'msl', 'ns N gl s x end ns M gl s x end fn f - { use G0 use G1 } ef c zqe zqp { use F0 } pl zqP F1 -'),
+    ('pInline', 'vkba', 'ns zqn rs ba - x end rs ba - x ef c zqe zqp { use G0 use G1 } pl zqP F0 -'),
+    ('pRelative', 'dx', 'gl c N ns S fn N - { use G0 } end ef c zqe zqp { use F0 } pl zqP F1 -'),
+    ('pMethods', 'dx', 'st S m | f end st T k | f end ef c zqe zqp { } pl zqP F2 -'),
+    ('pMemberMethod', 'dx', 'st S log2_0 | log2 end ef c zqe zqp { } pl zqP F1 -'),
+    ('pGood', 'dx', 'st S a end gl s g rs cbs s0 texture rs ba - sampler fn h i p { lv x use G0 use G1 } ef c main tid { use F0 use G2 } pl P F1 -'),
+    ('pGood', 'vkba', 'st S a end gl s g rs cbs s0 texture rs ba - sampler fn h i p { lv x use G0 use G1 } ef c main tid { use F0 use G2 } pl P F1 -'),
+    ('pGood', 'msl', 'st S a end gl s g rs cbs s0 texture rs ba - sampler fn h i p { lv x use G0 use G1 } ef c main tid { use F0 use G2 } pl P F1 -'),
+]
+
+
+def custom(ctx):
+    """the standard run, then: every witness program of Lemmas/NamesEmitWitness.lean (a Lean term) is the program its corpus
+    request denotes (the model parses the request, compares the two terms and answers for the term), and that answer is
+    what the real compiler produced for the request (compared by the standard run, since the request is in the corpus)"""
+    ctx.standard_run()
+    reqs = ["C15.witness\t%s\t%s\t%s" % w for w in WITNESSES] + ["C15.res\t%s\t%s" % (w[1], w[2]) for w in WITNESSES]
+    out = ctx.run_model(reqs)
+    n = len(WITNESSES)
+    for i, w in enumerate(WITNESSES):
+        if out[i] != out[n + i] or out[i].startswith("witness-differs") or out[i] in ("bad-request", "model-unavailable"):
+            ctx.broken.append("witness %s (%s) is not the program of its corpus request: %s" % (w[0], w[1], out[i][:120]))
+    ctx.extra["witness_programs"] = n
+
+
 SPEC = {
     "id": "C15",
     "gens": ["Reserved"],
@@ -105,38 +242,79 @@ SPEC = {
     "theorems": [T + n for n in [
         "source_fingerprints", "reserved_complete", "build_scope_order_independent", "never_reserved",
         "injective_per_scope", "verbatim", "renaming_equivariant_partial", "locals_apart_from_used",
-        "scope_loop_terminates"]],
+        "scope_loop_terminates",
+        # the emitted program (Model/NamesEmit: how both exporters consume the map)
+        "emitted_never_reserved", "emitted_injective_file_scope", "flat_used_name_unique",
+        "uses_resolve_to_same_entity", "renaming_equivariant", "renaming_not_suffix_stable_witness",
+        # clauses that are false on the current code: witnesses on the model, replayed on the real compiler
+        "member_reserved_witness", "cbuffer_reserved_witness", "cbuffer_member_dangling_witness",
+        "generated_name_clash_witness", "local_captures_type_witness", "wrapper_param_captures_entry_witness",
+        "msl_threaded_leaf_clash_witness", "inline_member_leaf_clash_witness", "relative_path_capture_witness",
+        "methods_not_verbatim_witness", "member_method_clash_witness"]],
     "harness": "c15",
     "nontrivial": nontrivial,
     "finding_key": finding_key,
     "shrink": shrink,
-    "level_text": "Proof about an executable model of NameMap::build (per-scope sorted groups, names that can be kept are claimed "
-                  "first, first free name_k for the rest, enum values as symbols of the enclosing scope, local-variable pass that "
-                  "avoids the names of used functions/globals), for every module and reserved list: names are never reserved, never "
-                  "shared inside a namespace-level scope, unique unreserved names are kept verbatim, locals never take the name of a "
-                  "used function/global, and the result does not depend on hash iteration order; the reserved tables are re-extracted "
-                  "every run and proved to contain an independent keyword list. What the exporters do with the map (struct members, "
-                  "MSL parameters for globals, relative paths) is covered by the correspondence run only.",
-    "rule": "requests = (target, program descriptor); the harness prints RSSL for the descriptor, type-checks it with the real "
-            "front end, calls the real NameMap::build and compares the assignment with the model; it compiles the program and its "
-            "skeleton (all entities renamed to unique fresh identifiers) with the real compile() for the target and checks, on the "
-            "emitted text, token-for-token equality up to identifiers, reserved names, duplicates per scope, C++ name lookup of "
-            "every printed path, and verbatim names.  Sweep: every name of RESERVED_NAMES (both targets) and of the independent "
-            "lists in every declaration position; random programs over small name pools (shared names across namespaces/locals/"
-            "globals, name_N forms, reserved names).  non-trivial = a generated name occurs or >= 4 symbols are named",
+    "custom": custom,
+    "level_text": "Proof about two executable models, for every module, reserved list and target configuration. (1) NameMap::build "
+                  "(per-scope sorted groups, names that can be kept are claimed first, first free name_k for the rest, enum values as "
+                  "symbols of the enclosing scope, local-variable pass that avoids the names of used functions/globals): names are never "
+                  "reserved, never shared inside a namespace-level scope, unique unreserved names are kept verbatim, locals never take the "
+                  "name of a used function/global, the result does not depend on hash iteration order, and the function commutes exactly "
+                  "with every renaming that is injective, keeps reserved-ness, commutes with the name_k format and preserves String::cmp "
+                  "(renaming_equivariant; a renaming that breaks the name_k format refutes the literal clause: witness). (2) NamesEmit: how "
+                  "the HLSL (dx, vk, vk + buffer addresses) and Metal exporters consume the map - every declaration and use of an "
+                  "identifier of the emitted program incl. InlineDescriptorN / g_inlineDescriptorN, threaded Metal parameters, "
+                  "ArgumentBufferN, setN and the ComputeShaderEntry wrapper, plus the reflected binding and entry-point names: every "
+                  "declaration of a map-managed entity carries the map's leaf name and is therefore never reserved "
+                  "(emitted_never_reserved), file-scope declarations of one namespace are pairwise different "
+                  "(emitted_injective_file_scope), and in programs without namespaces every map-managed candidate C++ lookup finds for the "
+                  "name printed for a used function/global is that entity (uses_resolve_to_same_entity). The clauses that are false on the "
+                  "current code (struct members, cbuffer blocks/members, generated names, locals vs type names, Metal wrapper parameters, "
+                  "leaf-named threaded parameters / inline-descriptor members, relative paths, methods) are proved false by 11 witnesses "
+                  "on the model, each replayed on the real compiler. The reserved tables are re-extracted every run and proved to "
+                  "contain an independent keyword list. Vertex/pixel pipelines, local-to-local shadowing and member typing are covered by "
+                  "the correspondence run and its oracle only.",
+    "rule": "two request streams. C15.names (h|m, descriptor): the harness prints RSSL, type-checks it with the real front end, calls "
+            "the real NameMap::build and compares the assignment with the model; it compiles the program and its skeleton (all "
+            "entities renamed to unique fresh identifiers) with the real compile() and checks, on the emitted text, token-for-token "
+            "equality up to identifiers, reserved names, duplicates per scope, C++ name lookup of every printed path, verbatim names. "
+            "C15.res (dx|vk|vkba|msl, descriptor with namespaces, structs with methods, enums, static/const/groupshared globals, 18 "
+            "resource kinds with arrays / bindless / bind groups, cbuffer blocks, functions, entry points, a Pipeline): real compile() "
+            "with pipeline + the syntax tree from the verification hooks (format(tree) must equal the emitted text); the tree of the "
+            "program and of its skeleton are walked in lockstep: every declared identifier (incl. generated ones) non-reserved, no two "
+            "entities under one name in one scope, every used identifier and every member access resolves (C++ lookup over the tree's "
+            "declarations, light typing for members) to the declaration site it resolves to in the skeleton, reflected binding names "
+            "and entry points name the declaration sites they name in the skeleton, names agree with the direct NameMap::build call, "
+            "verbatim names; the model must print the same declaration/use listing, reflection and entry names.  Sweeps: every name of "
+            "RESERVED_NAMES (both targets), of the independent lists and of the exporters' own generated names in 27 resource "
+            "positions x 4 targets and 13 plain positions x 2 targets; random programs over small name pools.  non-trivial = a "
+            "generated name occurs or >= 4 symbols are named",
     "trusted_base": [
         "Lean 4.33 kernel; axioms propext / Classical.choice / Quot.sound only (audited by #print axioms)",
         "tools/gens/c15.py (Gen.Reserved: RESERVED_NAMES of both exporters with constants resolved, is_illegal_*_name, literal "
         "fingerprints of the statements of NameMap::build the model transcribes, the NameMap::build call arguments)",
-        "hand-written Model/Names.lean mirrors NameMap::build; tied to the code by the correspondence run",
-        "Spec/Names.lean: committed independent keyword/built-in lists for HLSL and MSL (our reading of the language references)",
-        "harness: descriptor -> RSSL printer, output lexer and C++-style scope resolver used by the oracle",
+        "hand-written Model/Names.lean mirrors NameMap::build, Model/NamesEmit.lean mirrors the consumption of the map by "
+        "hlsl/src/ast_generate.rs and msl/src/generator.rs + generator/pipeline.rs; both tied to the code by the correspondence "
+        "run only (no translator table for the exporters)",
+        "Spec/Names.lean: committed independent keyword/built-in lists for HLSL and MSL (our reading of the language references); "
+        "Spec/NamesResolve.lean: C++ unqualified lookup for programs without namespaces",
+        "harness: descriptor -> RSSL printers, output lexer and scope resolver (names stream), syntax-tree walker with C++ lookup and "
+        "light member typing (res stream), the route front end -> select_pipeline -> assign_api_bindings -> verif_generate_ast "
+        "(checked per case against compile(): format(tree) = text)",
+        "the Lean witness programs are the programs of their corpus requests (checked per run by C15.witness: term = parsed request)",
     ],
     "assumptions": [
         "registry ids follow declaration order (checked per case: the registries' source names are compared with the descriptor)",
         "String::cmp order = Lean String < on the identifiers used (ASCII)",
-        "the usage analysis is an input of the model (Input.used): the driver derives it as 'every global / function named by a "
-        "use in some function body', which is what GlobalUsageAnalysis yields for the generated programs (literal initialisers, "
-        "no default arguments); usage through global initialisers and default arguments (/repo 2c8592f, 1d760f5) is not generated",
+        "the usage analysis is an input of the model (Input.used / NamesEmit.usedSyms: every global / function named by a use in "
+        "some function body, cbuffer members counting as their global on Metal), which is what GlobalUsageAnalysis yields for the "
+        "generated programs (literal initialisers, no default arguments); usage through global initialisers and default arguments "
+        "is not generated",
+        "emitted_* theorems assume the symbol has a name in the map (otherwise the real code panics 'No name for symbol') and, for "
+        "injectivity, that every symbol has one registry entry (true of the parser's output; decided in the non-vacuity example)",
+        "the skeleton (all user identifiers fresh) is an accepted program whenever the program is; programs with two entities of one "
+        "source scope under one identifier (other than overloads) or that refer by name to a type called like an RSSL built-in are "
+        "skipped (the skeleton is then no renaming of identifiers)",
     ],
 }
